@@ -4,6 +4,7 @@ from random import shuffle
 
 from jsonpickle import encode, decode
 
+from playback.exceptions import NoSuchRecording
 from playback.recordings.memory.memory_recording import MemoryRecording
 from playback.tape_cassette import TapeCassette
 
@@ -43,10 +44,11 @@ class InMemoryTapeCassette(TapeCassette):
         :type recording_id: basestring
         :return: Recording in the given id
         :rtype: playback.recording.Recording
+        :raises: playback.exceptions.NoSuchRecording
         """
         serialized_recording = self._recordings.get(recording_id)
         if serialized_recording is None:
-            return None
+            raise NoSuchRecording(recording_id)
         deserialized_form = decode(serialized_recording)
         return MemoryRecording(_id=deserialized_form.id, recording_data=deserialized_form.recording_data,
                                recording_metadata=deserialized_form.recording_metadata)
